@@ -143,6 +143,28 @@ impl CaseCx {
   pub fn note(&mut self, s: impl Into<String>) {
     self.notes.insert(s.into());
   }
+  /// a scratch context with the same identity (for work done on other threads inside this case)
+  pub fn scratch(&self) -> CaseCx {
+    CaseCx::new(self.tier, self.seed, self.check, self.case_key)
+  }
+  pub fn absorb(&mut self, other: CaseCx) {
+    for v in other.viols {
+      if self.viols.len() < 64 {
+        self.viols.push(v);
+      }
+    }
+    for (k, v) in other.counts {
+      *self.counts.entry(k).or_insert(0) += v;
+    }
+    for o in other.outcomes {
+      self.outcome(o);
+    }
+    self.distinct.extend(other.distinct);
+    for s in other.samples {
+      self.sample(s);
+    }
+    self.notes.extend(other.notes);
+  }
   /// fresh deterministic entropy for a sub-execution of this case
   pub fn entropy(&self, sub: u64) {
     getrandom::verif::reset(self.seed ^ self.case_key.rotate_left(17) ^ sub.wrapping_mul(0x9E3779B97F4A7C15));
@@ -638,4 +660,115 @@ pub fn par_map<T: Sync, R: Send>(items: &[T], f: impl Fn(usize, &T) -> R + Sync)
   let mut all: Vec<(usize, R)> = chunks.into_iter().flatten().collect();
   all.sort_by_key(|x| x.0);
   all.into_iter().map(|x| x.1).collect()
+}
+
+// ---------------------------------------------------------------- explicit-state BFS over real objects
+
+pub struct BfsStats {
+  pub states: u64,
+  pub transitions: u64,
+  pub merges: u64,
+  pub max_depth: usize,
+  pub level_sizes: Vec<usize>,
+}
+/// Level-synchronous explicit-state search. `K` is the canonical digest of a state (its dedup key),
+/// `S` holds the real object(s). `expand` executes every enabled real transition of one state and
+/// returns the successor states; `visit` evaluates the invariant on each NEW unique state; `merge`
+/// is called when an already-seen digest is reached again (merge check: the abstraction behind the
+/// digest is verified on the real objects instead of trusted). Levels are processed on all cores.
+pub fn bfs<K, S>(
+  cx: &mut CaseCx,
+  init: (K, S),
+  max_depth: usize,
+  expand: impl Fn(&K, &S, &mut CaseCx) -> Vec<(K, S)> + Sync,
+  merge: impl Fn(&K, &S, &S, &mut CaseCx) + Sync,
+  visit: impl Fn(&K, &S, &mut CaseCx) + Sync,
+  mut keep: impl FnMut(&K, &S),
+) -> BfsStats
+where
+  K: std::hash::Hash + Eq + Clone + Send + Sync,
+  S: Send + Sync,
+{
+  use std::collections::HashMap;
+  let mut stats = BfsStats { states: 0, transitions: 0, merges: 0, max_depth: 0, level_sizes: vec![] };
+  let mut seen: HashSet<u64> = HashSet::new();
+  let hk = |k: &K| {
+    use std::hash::Hasher;
+    let mut h = std::collections::hash_map::DefaultHasher::new();
+    k.hash(&mut h);
+    h.finish()
+  };
+  let mut frontier: Vec<(K, S)> = vec![init];
+  seen.insert(hk(&frontier[0].0));
+  {
+    let mut sc = cx.scratch();
+    visit(&frontier[0].0, &frontier[0].1, &mut sc);
+    cx.absorb(sc);
+  }
+  stats.states = 1;
+  stats.level_sizes.push(1);
+  for depth in 0..max_depth {
+    if frontier.is_empty() {
+      break;
+    }
+    let base = cx.scratch();
+    let results = par_map(&frontier, |_, (k, s)| {
+      let mut sc = base.scratch();
+      let succ = expand(k, s, &mut sc);
+      (succ, sc)
+    });
+    let mut next: HashMap<K, S> = HashMap::new();
+    let mut dup: Vec<(K, S)> = vec![];
+    for (succ, sc) in results {
+      cx.absorb(sc);
+      for (k, s) in succ {
+        stats.transitions += 1;
+        if next.contains_key(&k) {
+          dup.push((k, s));
+        } else if seen.contains(&hk(&k)) {
+          // a digest of an EARLIER level reached again (cannot happen for monotone systems; counted)
+          stats.merges += 1;
+        } else {
+          next.insert(k, s);
+        }
+      }
+    }
+    // merge checks against the first arrival of this level
+    let base = cx.scratch();
+    let mres = par_map(&dup, |_, (k, s)| {
+      let mut sc = base.scratch();
+      merge(k, &next[k], s, &mut sc);
+      sc
+    });
+    stats.merges += dup.len() as u64;
+    for sc in mres {
+      cx.absorb(sc);
+    }
+    drop(dup);
+    for (k, s) in frontier.iter() {
+      keep(k, s);
+    }
+    frontier = next.into_iter().collect();
+    for (k, _) in &frontier {
+      seen.insert(hk(k));
+    }
+    let base = cx.scratch();
+    let vres = par_map(&frontier, |_, (k, s)| {
+      let mut sc = base.scratch();
+      visit(k, s, &mut sc);
+      sc
+    });
+    for sc in vres {
+      cx.absorb(sc);
+    }
+    if !frontier.is_empty() {
+      stats.states += frontier.len() as u64;
+      stats.max_depth = depth + 1;
+      stats.level_sizes.push(frontier.len());
+    }
+  }
+  for (k, s) in frontier.iter() {
+    keep(k, s);
+  }
+  stats
 }
